@@ -1644,6 +1644,10 @@ func (e *Env) doMatch(op *Op) {
 			}
 		}
 		res["docs"] = docs
+		// the result is the caller's: an index layer keeps it as its deletion set and adds to it
+		if bm != nil {
+			runRecover(func() { bm.Add(uint32(1000003 + len(docs))) })
+		}
 	}
 	e.emit(M{"ev": "match", "seg": op.Seg, "pairs": pe, "res": res})
 }
